@@ -13,5 +13,6 @@
 #define SUB     Sub
 #define MUL     Mul
 #define DIV     Div
+#define NEG     Neg
 #define SQRT    Sqrt
 #define POW     Pow
